@@ -54,7 +54,7 @@ func init() {
 				{Name: "push-step", Pkg: "ringbuffer", Func: "ZZ_C14_PushStep", Params: pm("M", m), Witnesses: []string{"grow", "grow-while-wrapped"}},
 				{Name: "pop-step", Pkg: "ringbuffer", Func: "ZZ_C14_PopStep", Params: pm("M", m)},
 				{Name: "popn-step", Pkg: "ringbuffer", Func: "ZZ_C14_PopNStep", Params: pm("M", m), Witnesses: []string{"popn-across-wrap"}},
-				{Name: "sequences-from-New", Pkg: "ringbuffer", Func: "ZZ_C14_Seq", Params: pm("S", 3, "K", tierSel(tier, 4, 6)), Witnesses: []string{"seq-grew"}, Deadline: 30 * time.Minute},
+				{Name: "sequences-from-New", Pkg: "ringbuffer", Func: "ZZ_C14_Seq", Params: pm("S", 3, "K", tierSel(tier, 5, 7)), Witnesses: []string{"seq-grew"}, Deadline: 30 * time.Minute},
 				{Name: "concurrent-linearizable(2x1)", Pkg: "ringbuffer", Func: "ZZ_C14_Conc", Preempt: 2, Params: pm("S", 2, "T", 2, "M", 1), Witnesses: []string{"conc-grew"}, TrustRace: true, Deadline: 30 * time.Minute},
 			}
 			if tier == "thorough" {
@@ -65,8 +65,8 @@ func init() {
 			return hs
 		},
 		Bounds: func(tier string) string {
-			return fmt.Sprintf("one-step induction from an arbitrary valid state, capacity 1..%d, items/head/len/n/pushed value symbolic 64-bit; sequences of %d operations (Push of a symbolic value/Pop/PopN(0..3)/Len) from New(1..3) against a slice model; concurrent clause: %s on a ring of initial size 1..2 holding 0..2 elements, every interleaving at synchronisation granularity within 2 preemptions, oracle = a linearisation consistent with real-time order exists + no data race (happens-before detector on the repository's plain and atomic accesses)",
-				tierSel(tier, 6, 12), tierSel(tier, 4, 6), map[string]string{"quick": "2 goroutines x 1 operation", "thorough": "2 goroutines x 1 and x 2 operations, 3 goroutines x 1 operation"}[tier])
+			return fmt.Sprintf("one-step induction from an arbitrary valid state, capacity 1..%d, items/head/len/n/pushed value symbolic 64-bit; sequences of %d operations (Push of a symbolic value/Pop/PopN(0..3)/Len) from New(1..3) against a slice model, every batch returned by PopN kept and compared again after each later operation; concurrent clause: %s on a ring of initial size 1..2 holding 0..2 elements, every interleaving at synchronisation granularity within 2 preemptions, oracle = a linearisation consistent with real-time order exists + no data race (happens-before detector on the repository's plain and atomic accesses)",
+				tierSel(tier, 6, 12), tierSel(tier, 5, 7), map[string]string{"quick": "2 goroutines x 1 operation", "thorough": "2 goroutines x 1 and x 2 operations, 3 goroutines x 1 operation"}[tier])
 		},
 		Outside:     []string{"capacities above the bound (the arithmetic is capacity-generic, checked only to M)", "n < 0 for PopN (make panics; the only caller passes a constant)", "element types other than int64 (the code is generic and never inspects elements)", "concurrent clause: more goroutines/operations/preemptions; memory-model effects below sequential consistency are covered only through the race detector (a reported race is not natively confirmable and is trusted)"},
 		Assumptions: append([]string{"representation invariant: 0<=head,tail<mod, 0<=len<mod, tail=(head+len) mod mod, len(items)=mod (established by New: base-case harness)", "concurrent clause: pushed values are distinct constants (elements are opaque to the ring)"}, commonAssumptions...),
